@@ -609,3 +609,36 @@ PROPS["C12"] = {
     "outside": "algorithm entry points' inputs are checked by the harnesses of C04-C07 (not yet all built); distributions' constructors",
     "assumptions": ["map iteration order modelled as ascending key order"],
 }
+
+# ----------------------------------------------------------------------------- C20
+def c20_jobs(tier):
+    jobs = []
+    quick = tier == "quick"
+    kinds = [0, 1, 2, 3] if quick else list(range(8))
+    for kind in kinds:
+        for op in range(11):
+            jobs.append({"func": "verif_C20_vecshape", "args": [kind, op], "tag": f"kind={kind} op={op}"})
+        for op in range(10):
+            jobs.append({"func": "verif_C20_matshape", "args": [kind, op], "tag": f"kind={kind} op={op}"})
+        for vk in ([0, 1, 2, 4] if quick else [0, 1, 2, 3, 4, 6]):
+            if kind in (2, 3, 6, 7) and vk in (3,):
+                continue
+            jobs.append({"func": "verif_C20_index", "args": [kind, vk], "tag": f"kind={kind} view={vk}"})
+        for (r, c) in ((1, 1), (2, 3), (3, 2), (1, 3)):
+            jobs.append({"func": "verif_C20_structural", "args": [kind, r, c], "max_steps": 2000000})
+    jobs.append({"func": "verif_C20_orders", "args": []})
+    return jobs
+
+
+PROPS["C20"] = {
+    "overlay": [RT, VIEWS, SCALAR_COMMON, _scalar_real("Real64"), ("root/zz_verif_c03.go", "zz_verif_c03.go"), ("root/zz_verif_c20.go", "zz_verif_c20.go")],
+    "mode": "fp", "intmode": "int",
+    "jobs": c20_jobs,
+    "reach": ["C20-vecshape", "C20-matshape", "C20-index", "C20-orders", "C20-structural"],
+    "selftest_vars": ["r", "a", "b", "v", "m", "x", "y"],
+    "bounds": {"quick": "loud failure: 11 vector and 10 matrix operation groups with every combination of receiver/operand dimensions in 0..2 (vectors) / 1..2 (matrices), dense and sparse Float64/Real64; element access with a symbolic index "
+                        "on vectors (length 3) and on Slice/T views of a 3x3 parent (all slice bounds); SetVariable orders -1..4; dyadic operations on different N; structural loops (Tip, ReverseOrder, Sort, iteration) on shapes up to 3x2",
+               "thorough": "also Float32/Real32 containers"},
+    "outside": "termination of the floating-point convergence loops (QR algorithm, SVD, msqrt, line search, optimisers): not decided here; invalid option values of the algorithm packages",
+    "assumptions": ["a loop that does not terminate within the executor's step bound shows up as an undecided path (reported, never counted as held)"],
+}
